@@ -42,7 +42,8 @@ CASE_TIMEOUT = {"quick": 20, "thorough": 60}
 OPS = {"arith", "math", "cond", "index", "tensor", "compound", "deriv", "pow", "abs", "var", "sign", "bessel"}
 PROF = Profile(ops=OPS, leaves={"coef", "const", "lit", "x", "geo", "zero", "eye", "arg"}, max_rank=2, elements="all",
                manifolds=True, weights={"var": 2}, nindex=3, args=((0, "any"),))
-TWINS = ["coef_count", "coef_space", "const_count", "const_shape", "arg_number", "arg_part", "lit_type", "index"]
+TWINS = ["coef_count", "coef_space", "const_count", "const_shape", "arg_number", "arg_part", "lit_type", "index", "var_label",
+         "var_label"]
 
 
 @st.composite
@@ -55,12 +56,17 @@ def cases(draw, tier):
     pool = []
     n = draw(st.integers(3, 6))
     twin = draw(st.sampled_from(TWINS))
+    if twin == "var_label":
+        # a variable that the pool members use: its twin carries the same label around a different expression
+        v0 = G.new_var(G.expr((), (), 1), ())
     if twin == "arg_part":
         world["fields"]["a0"]["part"] = 0  # (arguments with and without a part are never mixed in one form)
     while len(pool) < n:
         k = draw(st.sampled_from(["new", "copy", "copy", "edit", "twin", "twin"])) if pool else "new"
         if k == "new":
             r = G.expr(sh, (), draw(st.integers(1, 3)))
+            if twin == "var_label" and sh == ():
+                r = ["mul", v0, r] if draw(st.booleans()) else v0
             if twin == "const_shape":
                 # the bare vector constant / a component of it, valid for the original and for the longer twin
                 r = ["fld", "c1"] if draw(st.booleans()) else ["mul", ["index", ["fld", "c1"], [draw(st.integers(0, g - 1))]], r]
@@ -95,6 +101,7 @@ class TwinBuilder(SharedBuilder):
 
     def __init__(self, base, twin):
         self.__dict__.update(base.__dict__)
+        self.base = base
         self.twin = twin
         self.vars = {}
         import ufl
@@ -124,6 +131,14 @@ class TwinBuilder(SharedBuilder):
             from ufl.classes import Index
 
             self.idx = {n: Index() for n in base.idx}
+
+    def mk_variable(self, e, k):
+        if self.twin == "var_label":
+            from ufl.classes import Variable
+
+            base_v = self.base.var(k)
+            return Variable(2 * e + 1, base_v.ufl_operands[1])
+        return super().mk_variable(e, k)
 
     def build(self, r):
         if self.twin == "lit_type" and r[0] == "lit" and isinstance(r[1], int) and not isinstance(r[1], bool):
@@ -168,8 +183,7 @@ def check_case(case):
     for m in case["pool"]:
         b = TwinBuilder(base, m["twin"]) if m["twin"] else SharedBuilder.__new__(SharedBuilder)
         if not m["twin"]:
-            b.__dict__.update(base.__dict__)
-            b.vars = {}
+            b.__dict__.update(base.__dict__)  # (shares the variables: copies of a recipe use the same labels)
         try:
             e = ufl.as_ufl(b.build(m["r"]))
             if case["forms"]:
